@@ -198,7 +198,15 @@ references each chunk once (what `Verify` enforces) and none that this node alre
 as accepted only (i.e. none that was included before, C37), and for *every* response script
 that, for each missing chunk in turn, eventually contains the requested chunk in a form that
 passes the chunk verifier — after any number of failed, invalid or mismatching answers —
-`Accept` returns the block's chunks. -/
+`Accept` returns the block's chunks.
+
+There is deliberately **no rate-limit side condition**: `n.st` is any storage, in particular
+one whose `sizes` put the chunk's producer at or beyond `cfg.limit` (`rateOk … = false`, a
+lagging validator that attested newer pending chunks of the same producer). The per-producer
+limit is a policy of the *signature-request* path (`ChunkSignatureRequestVerifier.Verify` calls
+`CheckRateLimit` before `VerifyRemoteChunk`); `VerifyRemoteChunk`, which `Accept` uses to store
+a chunk that consensus has already ordered, must not consult it — see
+`accept_succeeds_at_rate_limit` and `verifyRemote_ignores_rate_limit`. -/
 theorem accept_succeeds_once_valid_served (cfg : Cfg) (n : Node) (b : Block) (script : List Resp)
     (hnd : (b.certs.map (·.chunkID)).Nodup)
     (hloc : ∀ c ∈ b.certs, getBytes cfg n.st c.expiry c.chunkID = true → hasPending n.st c.chunkID = true)
@@ -220,6 +228,24 @@ theorem accept_succeeds_once_valid_served (cfg : Cfg) (n : Node) (b : Block) (sc
     rw [heq] at hs; simp at hs
   · rfl
 
+/-- `VerifyRemoteChunk` does not depend on the rate limit or on the pending weights: a chunk
+that is not pending and passes the chunk verifier is stored, whatever `cfg.limit`/`sizes` say. -/
+theorem verifyRemote_ignores_rate_limit (cfg : Cfg) (s : Storage) (i : Nat)
+    (hp : hasPending s i = false) (hv : verifyChunk cfg s.vmin i = none) :
+    verifyRemote cfg s i = (putVerified cfg s i none, .stored) := by
+  simp [verifyRemote, find_none_of_not_pending s i hp, hv]
+
+/-- **C35 (2) at the rate limit** the same conclusion when *every* referenced chunk's producer
+sits at or beyond its pending-weight limit on the accepting node (`CheckRateLimit` would refuse
+each of them): the hypothesis is not needed, acceptance still succeeds. -/
+theorem accept_succeeds_at_rate_limit (cfg : Cfg) (n : Node) (b : Block) (script : List Resp)
+    (_hlimit : ∀ c ∈ b.certs, rateOk cfg n.st c.chunkID = false)
+    (hnd : (b.certs.map (·.chunkID)).Nodup)
+    (hloc : ∀ c ∈ b.certs, getBytes cfg n.st c.expiry c.chunkID = true → hasPending n.st c.chunkID = true)
+    (hserve : Serves cfg n.st.vmin (missing cfg n.st b.certs) script) :
+    (accept cfg n b script).2 = .ok (b.certs.map (·.chunkID)) :=
+  accept_succeeds_once_valid_served cfg n b script hnd hloc hserve
+
 /-! non-vacuity: a concrete block with one local and one missing chunk; the peer first
 answers with an error, an invalid chunk and a valid chunk with another id. -/
 def exU : Nat → Info := fun i => ⟨1, 10, 100, i != 9⟩
@@ -236,5 +262,21 @@ example : Serves exCfg exNode.st.vmin (missing exCfg exNode.st exBlock.certs) ex
   exact Serves.cons 2 [] [.appErr, .chunk 9, .chunk 3] [.appErr] (by decide) (by decide) (Serves.nil _)
 /-- the mismatching valid chunk 3 is not stored by the repaired code -/
 example : hasPending (accept exCfg exNode exBlock exScript).1.st 3 = false := by decide
+
+/-! non-vacuity at the rate limit: limit 150, the producer already has 100 pending (chunk 1), so
+`CheckRateLimit` refuses every further 100-byte chunk of that producer — the lagging validator
+still fetches and accepts the missed chunk 2. -/
+def limCfg : Cfg := { exCfg with limit := 150 }
+example : rateOk limCfg exNode.st 2 = false := by decide
+example : rateOk limCfg exNode.st 1 = false := by decide
+example : ∀ c ∈ exBlock.certs, rateOk limCfg exNode.st c.chunkID = false := by decide
+example : (accept limCfg exNode exBlock exScript).2 = .ok [1, 2] := by decide
+example : Serves limCfg exNode.st.vmin (missing limCfg exNode.st exBlock.certs) exScript := by
+  have : missing limCfg exNode.st exBlock.certs = [2] := by decide
+  rw [this]
+  exact Serves.cons 2 [] [.appErr, .chunk 9, .chunk 3] [.appErr] (by decide) (by decide) (Serves.nil _)
+/-- exactly at the limit (pending weight = limit) -/
+example : rateOk { exCfg with limit := 100 } exNode.st 2 = false ∧
+    (accept { exCfg with limit := 100 } exNode exBlock exScript).2 = .ok [1, 2] := by decide
 
 end HyperModel.Props.C35
